@@ -3,6 +3,8 @@
 //!   oracle HASHER FIELD SEED TABLE OP...   a real hasher, with its digests recorded in TABLE so that the model replays the coin logic
 //!     OP: rs:HEX reseed(H::hash(bytes)) | d:DEG draw | di:N:DOMAIN:NONCE draw_integers | lz:NONCE check_leading_zeros
 //!         | gr:GF the prover's nonce search (first nonce in 1..=4096 with check_leading_zeros >= GF)
+//!   bnd HASHER FIELD SEED OP...            after the history: check_leading_zeros / draw_integers / draws for every BOUNDARY nonce (0, 1, p-1, p, p+1,
+//!                                          2p-1, 2p, .. for the three moduli, 2^32+-1, 2^62, 2^63, 2^64-1), compared pairwise (oracle only)
 //!   pow FIELD HASHER GF                    an honest Fibonacci proof generated with grinding factor GF: the prover's nonce is accepted by
 //!                                          verify() and every smaller nonce is refused with QuerySeedProofOfWorkVerificationFailed
 //! Oracle (independent of the model): a shadow coin written here from the documentation (counter-mode expansion of the
@@ -248,6 +250,14 @@ impl<H: ElementHasher> Shadow<H> {
         self.seed = d;
         self.counter = 0;
     }
+    fn reseed_digest(&mut self, data: H::Digest) {
+        let d = H::merge(&[self.seed, data]);
+        let mut k = self.seed.as_bytes().to_vec();
+        k.extend_from_slice(&data.as_bytes());
+        self.log.push((format!("m:{}", hex(&k)), hex(&d.as_bytes())));
+        self.seed = d;
+        self.counter = 0;
+    }
     fn lz(&mut self, v: u64) -> u32 {
         let d = self.mwi(v);
         let head = le_val(&d.as_bytes()[..8]) as u64;
@@ -373,6 +383,13 @@ where
                 coin.reseed(H::hash(&bytes));
                 Item::Unit
             },
+            ["rd", h] => {
+                // reseed with the digest whose serialization is the given bytes (boundary digests)
+                let bytes = unhex_opt(h)?;
+                let d = <H::Digest as Deserializable>::read_from_bytes(&bytes).ok()?;
+                coin.reseed(d);
+                Item::Unit
+            },
             ["d", deg] => {
                 let deg: usize = deg.parse().ok()?;
                 if !(1..=3).contains(&deg) {
@@ -423,6 +440,15 @@ where
             ["rs", h] => {
                 sh.reseed_bytes(&unhex(h));
                 Some(Item::Unit)
+            },
+            ["rd", h] => {
+                match <H::Digest as Deserializable>::read_from_bytes(&unhex(h)) {
+                    Ok(d) => {
+                        sh.reseed_digest(d);
+                        Some(Item::Unit)
+                    },
+                    Err(_) => None,
+                }
             },
             ["d", deg] => {
                 let deg: usize = deg.parse().unwrap();
@@ -589,6 +615,17 @@ impl<'a> Job for RunJob<'a> {
                     o = o.fail("coin.sensitivity.reseed", "changing one bit of the reseed data does not change the next outputs");
                 }
             }
+            if let Some(i) = self.ops.iter().position(|t| t.starts_with("rd:")) {
+                let mut ops2 = self.ops.to_vec();
+                let mut bytes = unhex(&ops2[i][3..]);
+                if !bytes.is_empty() {
+                    bytes[1] ^= 1;
+                    ops2[i] = format!("rd:{}", hex(&bytes));
+                    if !strong(&base, &with_probe(&seed, &ops2)) {
+                        o = o.fail("coin.sensitivity.reseed", "changing one bit of the reseed digest does not change the next outputs");
+                    }
+                }
+            }
             if let Some(i) = self.ops.iter().position(|t| t.starts_with("di:")) {
                 let p: Vec<&str> = self.ops[i].split(':').collect();
                 let nonce: u64 = p[3].parse().unwrap();
@@ -625,6 +662,7 @@ fn exec_run(t: &[&str], with_table: bool) -> Outcome {
         let p: Vec<&str> = tok.split(':').collect();
         let ok = match p.as_slice() {
             ["rs", h] => unhex_opt(h).is_some(),
+            ["rd", h] => unhex_opt(h).is_some(),
             ["d", d] => matches!(*d, "1" | "2" | "3"),
             ["di", n, dom, nonce] => n.parse::<u32>().is_ok() && dom.parse::<u64>().is_ok() && nonce.parse::<u64>().is_ok(),
             ["lz", v] => v.parse::<u64>().is_ok(),
@@ -638,6 +676,138 @@ fn exec_run(t: &[&str], with_table: bool) -> Outcome {
     dispatch(hasher, field, RunJob { field, hasher, seed: &seed, ops: &ops }).unwrap_or_else(|| Outcome::ok("bad-op"))
 }
 
+
+
+// ------------------------------------------------------------------------------------ boundary nonces
+/// nonces at which an encoding of the integer into the hasher's input may change shape
+fn boundary_nonces() -> Vec<u64> {
+    let mut v: Vec<u64> = vec![0, 1, (1 << 32) - 1, 1 << 32, (1 << 32) + 1, 1 << 62, 1 << 63, u64::MAX, u64::MAX - 1];
+    let m128_low = (wf_harness::fields::M128 & 0xFFFF_FFFF_FFFF_FFFF) as u64;
+    for p in [wf_harness::fields::M64 as u64, wf_harness::fields::M62 as u64, m128_low] {
+        for x in [Some(p - 1), Some(p), p.checked_add(1), p.checked_mul(2).map(|y| y - 1), p.checked_mul(2), p.checked_mul(2).and_then(|y| y.checked_add(1)), p.checked_mul(3), p.checked_mul(4)] {
+            if let Some(x) = x {
+                v.push(x);
+            }
+        }
+    }
+    v.sort();
+    v.dedup();
+    v
+}
+
+struct BndJob<'a> {
+    field: &'a str,
+    seed: &'a [u128],
+    ops: &'a [String],
+}
+impl<'a> Job for BndJob<'a> {
+    type Out = Outcome;
+    fn run<B, H>(self) -> Outcome
+    where
+        B: StarkField + ExtensibleField<2> + ExtensibleField<3>,
+        H: ElementHasher<BaseField = B> + Sync,
+    {
+        let seed: Option<Vec<B>> = self.seed.iter().map(|v| elem_of::<B>(*v)).collect();
+        let Some(seed) = seed else { return Outcome::ok("bad-op") };
+        // the seed digest after the history, from the shadow coin (its agreement with the real coin is judged by `run`)
+        let m = modulus(self.field);
+        let mut sh = Shadow::<H>::new(&seed, self.seed);
+        for tok in self.ops {
+            let p: Vec<&str> = tok.split(':').collect();
+            match p.as_slice() {
+                ["rs", h] => sh.reseed_bytes(&unhex(h)),
+                ["rd", h] => match <H::Digest as Deserializable>::read_from_bytes(&unhex(h)) {
+                    Ok(d) => sh.reseed_digest(d),
+                    Err(_) => return Outcome::ok("bad-op"),
+                },
+                ["d", deg] => {
+                    let _ = sh.draw(m, B::ELEMENT_BYTES, deg.parse().unwrap());
+                },
+                ["di", n, dom, nonce] => {
+                    let (n, dom, nonce): (usize, u64, u64) = (n.parse().unwrap(), dom.parse().unwrap(), nonce.parse().unwrap());
+                    if !dom.is_power_of_two() || n as u64 >= dom || n == 0 {
+                        return Outcome::ok("bad-op");
+                    }
+                    let _ = sh.ints(n, dom, nonce);
+                },
+                _ => return Outcome::ok("bad-op"),
+            }
+        }
+        let s_digest = sh.seed;
+        let nonces = boundary_nonces();
+        let mut o = Outcome::ok("");
+        let mut digs: Vec<[u8; 32]> = vec![];
+        let mut poss: Vec<Vec<Item>> = vec![];
+        let mut lzs: Vec<String> = vec![];
+        for &nz in &nonces {
+            // the digest whose zeros are counted / that draw_integers re-absorbs
+            let d = H::merge_with_int(s_digest, nz).as_bytes();
+            let head = le_val(&d[..8]) as u64;
+            let tz = if head == 0 { 64 } else { head.trailing_zeros() };
+            let mut all = self.ops.to_vec();
+            all.push(format!("lz:{}", nz));
+            all.push(format!("di:24:4294967296:{}", nz));
+            all.push("d:1".into());
+            all.push("d:1".into());
+            let mut f = vec![];
+            let Some(r) = run_real::<B, H>(&seed, &all, &mut f) else { return Outcome::ok("bad-op") };
+            let tail = r[r.len().saturating_sub(4)..].to_vec();
+            if tail.len() != 4 || tail.iter().any(|i| matches!(i, Item::Panic(_))) {
+                o = o.fail("coin.nonce-boundary.panic", format!("nonce {}: {:?}", nz, tail.last()));
+                return o;
+            }
+            if tail[0] != Item::Num(tz as u64) {
+                o = o.fail(
+                    "coin.nonce-boundary.pow",
+                    format!("nonce {}: check_leading_zeros = {} but merge_with_int(seed, nonce) has {} trailing zero bits", nz, item_str(&tail[0]), tz),
+                );
+            }
+            lzs.push(item_str(&tail[0])[2..].to_string());
+            digs.push(d);
+            poss.push(tail[1..].to_vec());
+        }
+        // different nonces: different digests, different query positions, different later draws
+        for i in 0..nonces.len() {
+            for j in i + 1..nonces.len() {
+                if digs[i] == digs[j] {
+                    o = o.fail(
+                        "coin.nonce-boundary.digest",
+                        format!("merge_with_int(seed, {}) == merge_with_int(seed, {})", nonces[i], nonces[j]),
+                    );
+                }
+                if poss[i][0] == poss[j][0] || poss[i][1] == poss[j][1] {
+                    o = o.fail(
+                        "coin.nonce-boundary.positions",
+                        format!("draw_integers with nonce {} and with nonce {} return the same positions / the same next draw", nonces[i], nonces[j]),
+                    );
+                }
+            }
+        }
+        o.out = lzs.join(",");
+        o
+    }
+}
+
+fn exec_bnd(t: &[&str]) -> Outcome {
+    if t.len() < 3 {
+        return Outcome::ok("bad-op");
+    }
+    let Some(seed) = parse_seed(t[2]) else { return Outcome::ok("bad-op") };
+    let ops: Vec<String> = t[3..].iter().map(|s| s.to_string()).collect();
+    for tok in &ops {
+        let p: Vec<&str> = tok.split(':').collect();
+        let ok = match p.as_slice() {
+            ["rs", h] | ["rd", h] => unhex_opt(h).is_some(),
+            ["d", d] => matches!(*d, "1" | "2"),
+            ["di", n, dom, nonce] => n.parse::<u32>().is_ok() && dom.parse::<u64>().is_ok() && nonce.parse::<u64>().is_ok(),
+            _ => false,
+        };
+        if !ok {
+            return Outcome::ok("bad-op");
+        }
+    }
+    dispatch(t[0], t[1], BndJob { field: t[1], seed: &seed, ops: &ops }).unwrap_or_else(|| Outcome::ok("bad-op"))
+}
 
 // ------------------------------------------------------------------------------------ end-to-end proof of work
 pub struct FibAir<B: StarkField> {
@@ -866,15 +1036,20 @@ fn rand_ops(rng: &mut Rng, max_len: u64, small: bool) -> Vec<String> {
                     1 => 1,
                     _ => rng.range(1, maxn).min(dom - 1),
                 };
-                let nonce = match rng.below(5) {
+                let nonce = match rng.below(6) {
                     0 => 0,
                     1 => u64::MAX,
                     2 => rng.below(1000),
+                    3 => *rng.pick(&boundary_nonces()),
                     _ => rng.u64(),
                 };
                 format!("di:{}:{}:{}", n, dom, nonce)
             },
-            8 | 9 => format!("lz:{}", if rng.chance(1, 4) { rng.below(100) } else { rng.u64() }),
+            8 | 9 => format!("lz:{}", match rng.below(4) {
+                0 => rng.below(100),
+                1 => *rng.pick(&boundary_nonces()),
+                _ => rng.u64(),
+            }),
             10 => format!("gr:{}", rng.range(0, if small { 6 } else { 10 })),
             _ => format!("d:{}", rng.range(1, 2)),
         };
@@ -971,6 +1146,53 @@ fn gen_all(rng: &mut Rng, tier: Tier, n: usize, emit: &mut dyn FnMut(String)) {
             }
         }
     }
+    // --- boundary nonces, pairwise: different nonces give different merge_with_int digests, positions and later draws;
+    //     boundary reseed digests (all-zero, all-ones / largest canonical elements); every real hasher and the toy one
+    let mut bnd_combos: Vec<(&str, &str)> = COMBOS.to_vec();
+    bnd_combos.extend_from_slice(&[("toy0", "f64"), ("toy0", "f62"), ("toy0", "f128")]);
+    for (h, f) in &bnd_combos {
+        let zero = hex(&[0u8; 32]);
+        let top = match *h {
+            // element digests: four canonical elements M-1
+            "rp64" | "rpj64" | "rp62" => {
+                let m = (modulus(f) - 1) as u64;
+                hex(&(0..4).flat_map(|_| m.to_le_bytes()).collect::<Vec<u8>>())
+            },
+            _ => hex(&[255u8; 32]),
+        };
+        let m1 = modulus(f) - 1;
+        let mut hist: Vec<String> = vec![
+            "-".into(),
+            "0".into(),
+            format!("{} rd:{}", m1, zero),
+            format!("1,2 rd:{}", top),
+            format!("0,0,0,0 rd:{} d:1 rd:{}", zero, zero),
+            format!("5 rs:- d:1 d:2 di:7:64:{}", wf_harness::fields::M64),
+        ];
+        for _ in 0..(if thorough { 12 } else { 2 }) {
+            let ops: Vec<String> = rand_ops(rng, 5, true).into_iter().filter(|t| t.starts_with("rs:") || t.starts_with("d:1") || t.starts_with("d:2")).collect();
+            hist.push(format!("{} {}", rand_seed(rng, f), ops.join(" ")).trim_end().to_string());
+        }
+        for hh in hist {
+            emit(format!("bnd {} {} {}", h, f, hh));
+        }
+        // the same boundary digests in ordinary histories (shadow coin, determinism, sensitivity probes)
+        emit(format!("run {} {} 1,2 rd:{} d:1 d:2 lz:0 di:5:64:0 rd:{} d:1", h, f, zero, top));
+        emit(format!("run {} {} - rd:{} rd:{} lz:{} di:9:1024:{}", h, f, top, zero, wf_harness::fields::M64, wf_harness::fields::M62));
+    }
+    // --- numbers of earlier draws 0/1/255/256/1000/1001 (one more draw changes the next output; the counter survives)
+    for (h, f) in [("toy0", "f64"), ("toy0", "f62"), ("b3_256", "f128"), ("rp64", "f64"), ("rp62", "f62"), ("sha3", "f62")] {
+        for k in [0usize, 1, 255, 256, 1000, 1001] {
+            let draws = vec!["d:1"; k].join(" ");
+            emit(format!("run {} {} 3,4 rs:01 {} lz:5 d:2", h, f, draws).replace("  ", " "));
+        }
+    }
+    // --- requested counts 0/1/255/256/1000/1001 of draw_integers on every hasher
+    for (h, f) in &bnd_combos {
+        for (n, dom) in [(0u64, 2u64), (1, 2), (255, 256), (256, 512), (1000, 1024), (1001, 2048)] {
+            emit(format!("run {} {} 9 di:{}:{}:{} d:1", h, f, n, dom, wf_harness::fields::M64));
+        }
+    }
     // --- end to end: the nonce found by the prover's search against the verifier's test
     for (f, h) in [("f64", "b3_256"), ("f64", "b3_192"), ("f64", "sha3"), ("f64", "rp64"), ("f64", "rpj64"), ("f62", "rp62"), ("f62", "b3_256"), ("f128", "b3_256"), ("f128", "sha3"), ("f128", "b3_192"), ("f64", "toy0")] {
         for gf in if thorough { vec![0u32, 1, 2, 3, 4, 5, 6, 7, 8, 9, 10] } else { vec![0u32, 1, 3, 6, 8] } {
@@ -1003,6 +1225,7 @@ impl Prop for P {
             "run" => exec_run(&t[1..], false),
             "oracle" => exec_run(&t[1..], true),
             "pow" => exec_pow(&t[1..]),
+            "bnd" => exec_bnd(&t[1..]),
             _ => Outcome::ok("bad-op"),
         }
     }
@@ -1027,7 +1250,9 @@ impl Prop for P {
          draw_integers with counts 1..255 (boundaries 0, domain-1, domain, 1000, 1001), power-of-two domains 2^1..2^63 (and non powers of two), nonces \
          0, 2^64-1, random / check_leading_zeros / the prover's nonce search) over the three fields: toy hashers (plain, 75% all-ones digests, 100% all-ones \
          digests) compared with the Lean model; the six real hashers judged by the shadow coin, and a third of them replayed by the model from a recorded \
-         digest table; every history is also run twice (determinism) and against four minimally different histories (sensitivity). A case is non-trivial \
+         digest table; every history is also run twice (determinism) and against four minimally different histories (sensitivity); bnd lines compare merge_with_int digests, \
+         check_leading_zeros, query positions and later draws pairwise over boundary nonces (0, 1, p-1, p, p+1, 2p-1, 2p, ... for the three moduli, 2^32+-1, 2^62, 2^63, 2^64-1) \
+         after histories with boundary reseed digests, for the six real hashers and the toy one; numbers of earlier draws and requested counts 0/1/255/256/1000/1001. A case is non-trivial \
          when its op line is distinct."
     }
 }
